@@ -121,6 +121,13 @@ def likelihood_chain(c, kind, m=2, n=2, noise='scalar'):
     elif kind == 'gradient':
         A = c.mat('A', m, n)
         model = cuqi.model.Model(lambda v: A @ (v ** 2), m, n, gradient=lambda direction, v: (A * (2 * v)).T @ direction)
+    elif kind in ('step_domain:matrix', 'step_domain:jacobian'):
+        # domain geometry with a non-identity parameter-to-function map and no derivative of its own (2 steps on 4 nodes):
+        # the gradient must be refused or be the derivative w.r.t. the PARAMETERS
+        gd = cuqi.geometry.StepExpansion(np.linspace(0, 1, 2 * n), n_steps=n)
+        A = c.mat('A', m, 2 * n)
+        if kind.endswith('matrix'): model = cuqi.model.LinearModel(A, range_geometry=m, domain_geometry=gd)
+        else: model = cuqi.model.Model(lambda v: A @ (v ** 2), m, gd, jacobian=lambda v: A * (2 * v))
     if noise == 'scalar': data_dist = Gaussian(model, s)
     elif noise == 'vector': data_dist = Gaussian(model, c.vec('nv', m, pos=True))
     elif noise == 'dense_cov':
@@ -130,6 +137,20 @@ def likelihood_chain(c, kind, m=2, n=2, noise='scalar'):
     elif noise == 'triangular_sqrtprec':
         data_dist = Gaussian(model, sqrtprec=c.lower('nr', m).T)                           # a non-symmetric square root
     L = data_dist.to_likelihood(y) if hasattr(data_dist, 'to_likelihood') else data_dist(y)
+    if kind.startswith('step_domain'):
+        d = c.vec('d', m)
+        pname = model._non_default_args[0]
+        def _mlp():
+            La = Gaussian(model, s, name='ya').to_likelihood(y); Lb = Gaussian(model, 2 * s, name='yb').to_likelihood(y)
+            return cuqi.distribution.MultipleLikelihoodPosterior(La, Lb, Gaussian(np.zeros(n), 1.0, name=pname, geometry=model.domain_geometry))
+        for nm, call, ref in (('model', lambda: model.gradient(d, x), lambda: c.grad_of(lambda v: np.sum(np.asarray(model.forward(v)) * d), x)),
+                              ('likelihood', lambda: L.gradient(x), lambda: c.grad_of(lambda v: L.logd(v), x)),
+                              ('multiple_likelihood_posterior', lambda: _mlp().gradient(x), lambda: c.grad_of(lambda v: _mlp().logd(v), x))):
+            try: gv = call()
+            except NotImplementedError: gv = None
+            c.holds(f'{nm}_gradient_refused_or_returned', True)
+            if gv is not None: c.eq(f'{nm}_gradient_if_returned_is_derivative_wrt_parameters', np.asarray(gv), ref(), tol=1e-4)
+        return
     g = L.gradient(x)
     c.holds('gradient_is_a_vector_of_the_variable_shape', np.shape(g) == (n,), note=f"shape {np.shape(g)}")
     c.eq('likelihood_gradient_is_derivative_of_own_logd', g, c.grad_of(lambda v: L.logd(v), x), tol=1e-4)
@@ -214,6 +235,9 @@ def jobs(tier):
                 # a refusal (exception) is an admissible outcome for C03; a returned value must be the derivative
                 J.append(Job(f'Gaussian.gradient:{param}:{form}:n={n}', lambda c, p=param, f=form, n=n: gaussian_gradient(c, p, f, n), 'Pbox',
                              [f'{D}._gaussian:Gaussian._gradient'] + Dg, rtol=1e-4, timeout=300, allow_exc=True))
+    for kind in ('step_domain:matrix', 'step_domain:jacobian'):
+        J.append(Job(f'Likelihood.gradient:non_identity_domain_geometry:{kind}', lambda c, k=kind: likelihood_chain(c, k), 'Pbox',
+                     ['cuqi.model._model:Model._check_gradient_can_be_computed', 'cuqi.model._model:Model.gradient', 'cuqi.likelihood._likelihood:Likelihood._gradient'], rtol=1e-4, timeout=300))
     for kind in ('matrix', 'funcs', 'jacobian', 'gradient'):
         J.append(Job(f'Likelihood.gradient:chain_rule:{kind}', lambda c, k=kind: likelihood_chain(c, k), 'Pbox',
                      ['cuqi.likelihood._likelihood:Likelihood._gradient', f'{D}._gaussian:Gaussian._gradient', 'cuqi.model._model:Model.gradient',
